@@ -197,4 +197,40 @@ example : (cTy C01.envEx (.opt (.prim .u8) .std)).bind cAbi = some (mkResult [[.
 example : rAbi C01.envEx (paramTy (.opt (.prim .u8) .std)) = rAbi C01.envEx (paramTy (.opt (.prim .u8) .dip)) := by decide
 example : intoOption (fromOption (some 5)) = some (some 5) ∧ (fromOption (none : Option Nat)).isOk = false := by decide
 
+/-! ### bytes (the codec of `Wire.lean`, layout tied to gcc / rustc by C01's `wire-layout` rows) -/
+
+open DiplomatModel.Wire in
+/-- **One encoding, whatever the spelling**: the wire type of an optional parameter, field or return value does not
+    depend on whether it was written `Option<T>` or `DiplomatOption<T>`; for non-pointer payloads it is the
+    `{payload, is_ok}` record of `Result<T, ()>`, for opaque references and boxes a bare pointer. -/
+theorem option_wire_spelling_invariant (env : Env) (fuel : Nat) (t : TyName) :
+    wireOf env fuel (.opt t .std) = wireOf env fuel (.opt t .dip) := by
+  cases fuel <;> simp [wireOf]
+
+open DiplomatModel.Wire in
+theorem option_wire_is_result (env : Env) (fuel : Nat) (t : TyName) (w : WTy)
+    (hb : ∀ b, t ≠ .box b) (hr : ∀ lt m b, t ≠ .ref lt m b) (h : wireOf env fuel t = some w) (sd : Sd) :
+    wireOf env (fuel + 1) (.opt t sd) = some (.result w .unit) := by
+  cases t <;> simp [wireOf, h] <;> first | exact absurd rfl (hb _) | exact absurd rfl (hr _ _ _)
+
+open DiplomatModel.Wire in
+/-- **`is_ok` is true exactly for Some/Ok, and the payload is the one stored**: storing `Ok(v)` and loading gives
+    `Ok(v)`, storing `Err(e)` gives `Err(e)` — for every payload type, any memory, any address. -/
+theorem result_bytes_roundtrip (ok err : WTy) (hwf : (WTy.result ok err).WF) (base : Nat) (m : Memory.Mem) (v : WVal) :
+    (WellTyped ok v → decode (.result ok err) base (encode (.result ok err) (.ok v) base m) = .ok v)
+    ∧ (WellTyped err v → decode (.result ok err) base (encode (.result ok err) (.err v) base m) = .err v) :=
+  C01.result_arm_roundtrip ok err v base m hwf
+
+open DiplomatModel.Wire in
+/-- **Unit arms occupy no payload**: `Result<(), ()>` / `Option<()>` is the flag byte alone, and a unit arm next to
+    a payload arm adds nothing to the record. -/
+theorem unit_arms_take_no_bytes (w : WTy) (hwf : w.WF) :
+    size (.result .unit .unit) = 1 ∧ flagOffset .unit .unit = 0
+    ∧ flagOffset w .unit = flagOffset w w ∧ size (.result w .unit) = size (.result w w) := by
+  have hp : 1 ≤ (sizeAlign w).2 := align_pos w hwf
+  have hm : max (sizeAlign w).2 1 = (sizeAlign w).2 := Nat.max_eq_left hp
+  refine ⟨by decide, by decide, ?_, ?_⟩
+  · simp [flagOffset, size, align, sizeAlign, hm]
+  · simp [size, sizeAlign, hm]
+
 end DiplomatModel.Props.C10
